@@ -127,10 +127,14 @@ T_End ==
   /\ PrintT(<<"ACCEPTED", E.tr>>)
   /\ NoChange
 
+\* prophecy for the one choice the property leaves open and the trace decides later: a QoS 0 message for an offline session was
+\* kept iff it is dequeued later on a connection that does not exist yet
+KeepHint(m) == \E j \in l..EndOf(E.tr) : /\ Trace[j].ev = "deq.ret" /\ ~Trace[j].nil /\ Trace[j].msg.m = m
+                                         /\ \E i \in l..j : Trace[i].ev = "popen" /\ Trace[i].c = Trace[j].c
 T_Silent ==
   /\ l <= Len(Trace) /\ TLCSet(2, l)
   /\ UNCHANGED l
-  /\ \/ \E c \in Conns : \E s \in pubctx[c].todo : FanOut(c, s, FALSE) \/ FanOut(c, s, TRUE)
+  /\ \/ \E c \in Conns : \E s \in pubctx[c].todo : FanOut(c, s, FALSE, KeepHint(pubctx[c].msg.m)) \/ FanOut(c, s, TRUE, FALSE)
      \/ \E c \in Conns : cl[c].pc = "sub.acked" /\ \E i \in 1..Len(cl[c].pkt.subs) : \E m \in retained : SubReplay(c, i, m)
      \/ \E c \in Conns : CleanupStart(c)
 
